@@ -360,26 +360,30 @@ theorem chem_convert_documented :
   rw [chemConvert_eq_fold chem_rules_affine, chemOutUnit_eq_fold chem_rules_affine, h]
   simp [applyQ]
 
-/-- each block's factor / offset / M-dependence / new unit is the documented one (`Std.chem`, exact or to the
-    accuracy of the rounded constant) — for every block except `(L/mol/deg F)`.
-    *partial*: the full statement (no exception) is false, see `chem_units_chain_LmolF_false`. -/
+/-- FULL statement (`ChemChainDocumented`, Lemmas/C15.lean): each block's pattern, alternative spelling, factor, offset,
+    M-dependence and new unit is the documented one of `Std.chem` (exactly, or to the accuracy of the rounded constant).
+    True since the repair of the `(L/mol/deg F)` block (fix 543e1ec in /repo: `/ (5./9.)`); before it only
+    `chem_units_chain_partial` held and `chem_units_chain_LmolF_witness` gave the negation. -/
+theorem chem_units_chain : ChemChainDocumented := by
+  decide +kernel
+
+/-- the same for every block except `(L/mol/deg F)` (kept: it is what remains provable if that block regresses) -/
 theorem chem_units_chain_partial :
     ∀ q ∈ chemRulesQ, q.pat ≠ "(L/mol/deg F)" → ∃ s ∈ Std.chem, s.pat = q.pat ∧ q.alt = s.alt ∧
       q.hasAlt = (s.alt != "") ∧ q.out = s.out ∧
       q.usesM = s.usesM ∧ q.b = s.b ∧ Std.ratAbs (q.a - s.a) ≤ s.tol * s.a := by
   decide +kernel
 
-/-! `ChemChainDocumented` (the FULL statement: every block is the documented one) and `LmolFDefect` (the recorded
-    defect: the block `(L/mol/deg F)` multiplies by 1/1800) are defined in Lemmas/C15.lean -/
+/-! `LmolFDefect` (Lemmas/C15.lean): the block `(L/mol/deg F)` multiplies by 1e-3·(5/9) = 1/1800 — the defect found by this
+    check in the original source. -/
 
-/-- witness of the negation: a quantity per °F is 9/5 of the quantity per °C (as the sibling blocks
-    `(ft^3/lb-mol/deg F)`, `(BTU/lb-mol/deg F)` have it), documented factor 1e-3·9/5 = 9/5000; with the factor 1/1800
-    (3.24 times smaller) the full statement is false -/
+/-- witness of the negation for the original source: a quantity per °F is 9/5 of the quantity per °C (as the sibling
+    blocks `(ft^3/lb-mol/deg F)`, `(BTU/lb-mol/deg F)` have it), documented factor 1e-3·9/5 = 9/5000; with the factor
+    1/1800 (3.24 times smaller) the full statement is false -/
 theorem chem_units_chain_LmolF_witness : LmolFDefect → ¬ ChemChainDocumented := by
   decide +kernel
 
-/-- on the current source: the full statement holds, or exactly the recorded defect is present
-    (whichever disjunct is true is found by `decide`; the theorem survives a repair of the block) -/
+/-- on any source: the full statement holds, or exactly the recorded defect is present -/
 theorem chem_units_chain_or_recorded_defect : ChemChainDocumented ∨ LmolFDefect := by
   decide +kernel
 
